@@ -144,11 +144,14 @@ func check(c Case) (o ev.Outcome) {
 			sort.Strings(keys)
 			for i, k := range keys {
 				x := paths[k]
-				if x.ViaUses || x.ViaAug || x.Implicit {
+				if x.Implicit {
 					continue
 				}
+				// prefixes are those of the (sub)module whose text contains the start node's
+				// statement: the module itself, one of its submodules, an augmenting module or
+				// the module that defines the grouping the node was copied from
 				src := c.Set.Find(x.Src)
-				if src == nil || c.Set.Owner(src) != m {
+				if src == nil {
 					continue
 				}
 				// a deterministic sample of the eligible starts
@@ -267,11 +270,11 @@ func TestCheck(t *testing.T) {
 	ev.Run(t, ev.Spec[Case]{
 		ID:    "C17",
 		Level: "exploration",
-		Rule: "processed trees of module sets from the schema model (uses, submodules, augments also into unwritten rpc input/output, choices with implicit cases, rpc/action input and output) x start nodes (every module root and a seeded quarter of the nodes whose text lives in that module or one of its submodules) x every node of every module the start's (sub)module can name (itself or imported): the absolute path spelled with the start module's prefixes, the relative path with '..' steps when both are in one tree, and for a seeded third of the pairs the path with one step replaced by a name that is no child there (first, middle, last step; below rpc, below input/output). " +
+		Rule: "processed trees of module sets from the schema model (uses, submodules, augments also into unwritten rpc input/output, choices with implicit cases, rpc/action input and output) x start nodes (every module root and a seeded quarter of all other nodes, including nodes written in submodules, grafted by augments of other modules and copied from groupings of other modules) x every node of every module the start's (sub)module can name (itself or imported): the absolute path spelled with the start module's prefixes, the relative path with '..' steps when both are in one tree, and for a seeded third of the pairs the path with one step replaced by a name that is no child there (first, middle, last step; below rpc, below input/output). " +
 			"Oracle: pointer identity with the node reached by walking Dir/RPC by names; negative paths return nil. " +
 			"Non-trivial = at least 10 lookups over at least 2 target classes (plain, copied by uses, grafted by augment, implicit case, below rpc input/output); distinct by (set, order, pick)",
 		Assumptions: []string{
-			"start nodes that are copies instantiated from a grouping or placed by an augment are not used (which import table applies is not stated); later path steps carry the RFC-correct prefix",
+			"for a start node placed by uses or augment the prefixes of the (sub)module whose text contains its statement are used (the only import table that can be meant); later path steps carry the RFC-correct prefix",
 			"unwritten input/output of an action is not a target",
 		},
 		Check: check,
